@@ -73,6 +73,9 @@ def run(idx: Index, rep: Report, tier: str):
     check_pass_semantics(idx, rep, tier)
     check_simplify(idx, rep)
     check_trim_relabelling(idx, rep)
+    from .C14 import check_trim_fold, check_trim_table
+    check_trim_table(idx, rep)               # trimming trivial qubits is a circuit transformation too: what is removed must have been |0> or |1>
+    check_trim_fold(idx, rep)
     check_clifford_angles(idx, rep)
     rep.stats.update({"alias_" + k: v for k, v in an.stats.items()})
 
